@@ -181,6 +181,8 @@ type wscenario struct {
 	cancels map[int]context.CancelFunc
 	done    map[int]chan struct{}
 	held    []int
+	// afterNext, when set, runs in the goroutine of the next call right after its WriteMessages returned
+	afterNext func()
 	closed  chan struct{}
 	closing bool
 }
@@ -253,10 +255,15 @@ func (s *wscenario) begin(msgs []wmsg, hold, mayFail bool) int {
 		mf = 1
 	}
 	s.rec.add("cb/%d/%d/%s", c, mf, pl)
+	then := s.afterNext
+	s.afterNext = nil
 	go func() {
 		defer close(d)
 		err := s.w.WriteMessages(ctx, km...)
 		s.rec.add("cr/%d/%s", c, classify(err))
+		if then != nil {
+			then()
+		}
 	}()
 	return c
 }
@@ -407,6 +414,9 @@ func steered(kind int, r *rand.Rand, salt uint64) (string, string) {
 	if r.Intn(2) == 0 {
 		cfg.timeout = time.Millisecond
 	}
+	if kind/2 == 4 {
+		cfg.async = true
+	}
 	if kind/2 == 2 {
 		// the call cancelled while it waits for its batch must have no other way out: no timer, batch never full
 		cfg.timeout = time.Hour
@@ -454,6 +464,22 @@ func steered(kind int, r *rand.Rand, salt uint64) (string, string) {
 				s.rec.add("to/%d", s2) // the cancelled call is still blocked
 			}
 		}
+	case 4:
+		// an asynchronous write and, from the same goroutine, Close — on a single P, so that none of the goroutines the
+		// write spawned (partition writer, batch timer) has run when Close reaches its wait: the WaitGroup has to
+		// account for them already
+		old := runtime.GOMAXPROCS(1)
+		s.closing = true
+		s.closed = make(chan struct{})
+		s.afterNext = func() {
+			s.rec.add("xb")
+			s.w.Close()
+			s.rec.add("xr")
+			close(s.closed)
+		}
+		c := s.begin(s.msgs(r, 1+r.Intn(2)), false, false)
+		s.waitDone(c)
+		runtime.GOMAXPROCS(old)
 	case 3:
 		// use after close
 		c := s.begin(s.msgs(r, 2), false, false)
@@ -521,7 +547,7 @@ func writerPart(seed int64) {
 	}
 	n := 0
 	for rep := 0; rep < reps; rep++ {
-		for kind := 0; kind < 8; kind++ {
+		for kind := 0; kind < 10; kind++ {
 			n++
 			if tooManyStuck() {
 				return
